@@ -126,6 +126,9 @@ type answerClass interface {
 	AnswerClass(op []string, ans string) string
 }
 
+// extraStats lets a component add its own figures (e.g. measured shutdown latencies) to stats.json "extra".
+type extraStats interface{ ExtraStats() map[string]any }
+
 // failFast is implemented by components whose failing cases are expensive (each runs into a watchdog): the
 // run stops after that many failing cases. Only for components without known findings.
 type failFast interface{ FailFast() int }
@@ -204,6 +207,9 @@ func runCases(c Component, cases [][]string, seed uint64, tier, dir string) erro
 	}
 	st.Cases = len(cases)
 	st.DistinctNontrivial = len(distinct)
+	if es, ok := c.(extraStats); ok {
+		st.Extra = es.ExtraStats()
+	}
 	if err := ow.Flush(); err != nil {
 		return err
 	}
